@@ -58,6 +58,46 @@ template <typename... ArgTypes> inline void ___print___(ArgTypes... args) {
     std::exit(EXIT_FAILURE);                                                   \
   } while (0)
 
+#ifdef CRAB_VERIF
+/* Verification hooks (only with -DCRAB_VERIF): CRAB_ERROR throws a
+   catchable exception instead of terminating the process, and
+   CRAB_VERIF_TICK() lets a harness count/limit fixpoint iterations. */
+} // end namespace crab
+#include <stdexcept>
+namespace crab {
+namespace verif {
+class crab_error : public std::runtime_error {
+public:
+  explicit crab_error(const std::string &msg) : std::runtime_error(msg) {}
+};
+template <typename... ArgTypes>
+inline std::string ___format___(ArgTypes... args) {
+  crab::crab_string_os os;
+  using expand_variadic_pack = int[];
+  (void)expand_variadic_pack{0, ((os << args), void(), 0)...};
+  return os.str();
+}
+inline void (*&tick_hook())() {
+  static void (*hook)() = nullptr;
+  return hook;
+}
+} // end namespace verif
+#undef CRAB_ERROR
+#define CRAB_ERROR(...)                                                        \
+  do {                                                                         \
+    throw ::crab::verif::crab_error(::crab::verif::___format___(__VA_ARGS__)); \
+  } while (0)
+#define CRAB_VERIF_TICK()                                                      \
+  do {                                                                         \
+    if (::crab::verif::tick_hook())                                            \
+      ::crab::verif::tick_hook()();                                            \
+  } while (0)
+#else
+#define CRAB_VERIF_TICK()                                                      \
+  do {                                                                         \
+  } while (0)
+#endif
+
 extern bool CrabWarningFlag;
 void CrabEnableWarningMsg(bool b);
 
